@@ -31,9 +31,14 @@ def gen_ctl(rng, n):
         nsec = rng.choice([1, 2, 3, rng.range(1, 5)])
         raw = rng.chance(1, 5)
         equal_len = rng.chance(2, 3)
+        big = rng.chance(1, 8)
+        if big:
+            nsys, nsec = 3, rng.range(1, 2)
         toks, lid = [], 0
         for sct in range(1 if raw else nsec):
             size = rng.choice([0, b - 1, b, b + 1, 2 * b, q * b, q * b + 1, (q + 1) * b, rng.range(0, 3 * q * b + 2)])
+            if big:
+                size = rng.range(6 * q * b, 12 * q * b + 40)       # every batch object recycled several times, all workers busy
             style = rng.choice(["all", "single", "mixed", "mixed", "sparse"])
             for _ in range(size):
                 if style == "all":
@@ -44,11 +49,13 @@ def gen_ctl(rng, n):
                     calls = rng.choice(["-", "-", "A", ".".join(str(o) for o in range(nsys) if rng.chance(1, 2)) or "-"])
                 else:
                     calls = rng.choice(["A", "-", ".".join(str(o) for o in range(nsys) if rng.chance(2, 3)) or "-"])
-                ln = 3 if equal_len else rng.range(len(str(lid)), 24)
-                toks.append("L%d:%d:%s" % (lid, max(ln, len(str(lid))), calls))
+                natural = len(str(lid)) + 3          # "<id> n<TAB>"
+                ln = 12 if equal_len else rng.range(natural, 30)
+                toks.append("L%d:%d:%s" % (lid, max(ln, natural), calls))
                 lid += 1
             toks.append("F" if raw else "E")
-        cases.append("CTL %d %d %d %s" % (threads, b, rng.below(1 << 30) + 1, " ".join(toks)))
+        # CTLC: the filter sits behind the real lm::ContextFilter and keeps per-call scratch state (every worker needs its own copy)
+        cases.append("%s %d %d %d %s" % (rng.choice(["CTL", "CTL", "CTLC"]), threads, b, rng.below(1 << 30) + 1, " ".join(toks)))
     return cases
 
 
@@ -293,6 +300,174 @@ def tool_checks(ctx, stock, jitter, n_inputs):
 
 
 # ---------------------------------------------------------------------------------------------
+# tool-level cases on inputs larger than the reader's window
+def big_tool_checks(ctx, stock, jitter):
+    """One model of about 2.5 MB (more than two util::FilePiece windows of 1 MiB, so the reader's window moves while batches
+    are in flight; sections of 30 000 and 90 000 n-grams, so that many batches are filtered at the same time), every mode
+    incl. context / phrase, both formats, threads 2..8 with tiny and default batch sizes, file and pipe input, each threaded
+    configuration repeated; byte-for-byte against threads:1."""
+    rng = ctx.rng.fork()
+    d = os.path.join(ctx.scratch, "big")
+    os.makedirs(d, exist_ok=True)
+    nw = 30000
+    words = ["w%05d" % i for i in range(nw)]
+    nb = ctx.pick(90000, 250000)
+    arpa, raw = os.path.join(d, "big.arpa"), os.path.join(d, "big.raw")
+    with open(arpa, "w") as f, open(raw, "w") as g:
+        f.write("\\data\\\nngram 1=%d\nngram 2=%d\n\n\\1-grams:\n" % (nw + 3, nb))
+        for w in ["<unk>", "<s>", "</s>"] + words:
+            f.write("-%d.%03d\t%s\t-0.5\n" % (rng.range(1, 5), rng.below(1000), w))
+        f.write("\n\\2-grams:\n")
+        for _ in range(nb):
+            a, b = words[rng.below(3000)], words[rng.below(nw)]
+            f.write("-0.%03d\t%s %s\n" % (rng.below(1000), a, b))
+            g.write("%s %s\t%d\n" % (a, b, rng.range(1, 99)))
+        f.write("\n\\end\\\n")
+    nsent = 4
+    vocab, pvocab = os.path.join(d, "vocab.txt"), os.path.join(d, "pvocab.txt")
+    with open(vocab, "w") as f, open(pvocab, "w") as pf:
+        for _ in range(nsent):
+            ws = [words[rng.below(3000)] for _ in range(400)]
+            f.write(" ".join(ws) + "\n")
+            pf.write("\t".join(" ".join(ws[i:i + 2]) for i in range(0, len(ws), 2)) + "\n")
+    modes = [(["single"], "arpa"), (["union", "context"], "arpa"), (["multiple", "context"], "arpa"), (["union", "phrase", "context"], "arpa"),
+             (["multiple", "phrase", "context"], "arpa"), (["union"], "raw"), (["multiple", "context"], "raw"), (["union", "phrase"], "arpa"),
+             (["multiple"], "arpa"), (["single", "context"], "raw"), (["union", "context"], "raw")]
+    configs = [(2, 1000), (4, 200), (8, 50), (3, 7), (4, 25000), (2, 5000), (8, 1000), (5, 100), (4, None), (2, None)]
+    fails, runs = [], 0
+    for mode, fmt in modes[:ctx.pick(8, 11)]:
+        if len(fails) >= 2:
+            break
+        model = arpa if fmt == "arpa" else raw
+        voc = pvocab if "phrase" in mode else vocab
+        multi = mode[0] == "multiple"
+        nout = nsent if multi else 1
+        refp = os.path.join(d, "ref.")
+        for f in os.listdir(d):
+            if f.startswith("ref.") or f.startswith("thr."):
+                os.remove(os.path.join(d, f))
+        cmdref = "exec %s %s %s threads:1 model:%s %s < %s" % (stock, " ".join(mode), fmt, model, refp, voc)
+        t0 = time.time()
+        rc1, _, _ = vlib.sh(["timeout", "60", "sh", "-c", cmdref], timeout=70)
+        t1 = time.time() - t0
+        runs += 1
+        ref = read_outputs(refp, nout)
+        cfgs = list(configs)
+        rng.shuffle(cfgs)
+        bad = None
+        for k, b in cfgs[:ctx.pick(3, 8)]:
+            for rep in range(ctx.pick(2, 4)):
+                for f in os.listdir(d):
+                    if f.startswith("thr."):
+                        os.remove(os.path.join(d, f))
+                thrp = os.path.join(d, "thr.")
+                exe, env = (jitter, {"KPU_VERIF_JITTER": str(rng.below(1 << 30) + 1)}) if rep % 2 else (stock, None)
+                opts = "threads:%d%s" % (k, "" if b is None else " batch_size:%d" % b)
+                pipe = rng.chance(1, 5)
+                if pipe:     # the model through a pipe (FilePiece falls back to read()), the vocabulary as a file
+                    cmd = "cat %s | %s %s %s %s vocab:%s %s" % (model, exe, " ".join(mode), fmt, opts, voc, thrp)
+                else:
+                    cmd = "exec %s %s %s %s model:%s %s < %s" % (exe, " ".join(mode), fmt, opts, model, thrp, voc)
+                limit = max(15.0, 50 * t1)
+                e = dict(os.environ)
+                if env:
+                    e.update(env)
+                p = subprocess.Popen(["sh", "-c", cmd], stdout=subprocess.PIPE, stderr=subprocess.PIPE, env=e, start_new_session=True)
+                try:
+                    p.communicate(timeout=limit)
+                    rc = p.returncode
+                except subprocess.TimeoutExpired:
+                    try:
+                        os.killpg(p.pid, 9)
+                    except OSError:
+                        pass
+                    p.communicate()
+                    rc = 124
+                runs += 1
+                got = read_outputs(thrp, nout)
+                what = None
+                if rc == 124:
+                    what = ("hang", "%s did not terminate within %.0f s (threads:1 took %.2f s)" % (opts, limit, t1))
+                elif rc != rc1:
+                    what = ("exit-status", "%s exits %d, threads:1 exits %d" % (opts, rc, rc1))
+                elif got != ref:
+                    which = [i for i, (a, bb) in enumerate(zip(got, ref)) if a != bb]
+                    what = ("output-differs", "%s: output file(s) %s differ from the threads:1 result" % (opts, which))
+                if what:
+                    bad = (what, cmd, cmdref, exe, env, k, b, rep)
+                    break
+            if bad:
+                break
+        if bad:
+            what, cmd, cmdref, exe, env, k, b, rep = bad
+            keep = os.path.join(ctx.replay_dir, "bigfiles-%d-%d" % (ctx.seed, len(fails)))
+            os.makedirs(keep, exist_ok=True)
+            shutil.copy(model, keep)
+            shutil.copy(voc, keep)
+            fails.append(("filter:%s:%s:%s" % (fmt, "+".join(mode), what[0]), what[1] + " (input larger than the reader's window; run %d of the configuration)" % (rep + 1),
+                          {"cmd": cmd.replace(d, keep).replace(exe, "bin/filter" if exe == stock else "c12_filter_jitter"), "reference_cmd": cmdref.replace(d, keep).replace(stock, "bin/filter"),
+                           "env": env, "files": keep, "model": os.path.join(keep, os.path.basename(model)), "vocab": os.path.join(keep, os.path.basename(voc)),
+                           "args": mode + [fmt], "threads": k, "batch_size": b if b is not None else 25000, "nout": nout, "model_bytes": os.path.getsize(model),
+                           "note": "scheduling dependent: replay repeats the run"}))
+    return fails, runs, os.path.getsize(arpa)
+
+
+def tsan_checks(ctx, inputs_dir_seed):
+    """The threaded filter under ThreadSanitizer (variant build of the tree under test): the protocol model assumes that a batch,
+    and every filter object, is touched by one thread at a time; a reported data race is an interleaving-dependent defect
+    even when this particular run's output is right.  Medium-sized model so that many batches are in flight."""
+    try:
+        exe = vlib.tool("filter", variant="tsan")
+    except vlib.InfraError as e:
+        return [], 0, "tsan build unavailable: %s" % str(e)[:200]
+    rng = ctx.rng.fork()
+    d = os.path.join(ctx.scratch, "tsan")
+    os.makedirs(d, exist_ok=True)
+    words = ["w%04d" % i for i in range(3000)]
+    nb = 20000
+    arpa, raw = os.path.join(d, "m.arpa"), os.path.join(d, "m.raw")
+    with open(arpa, "w") as f, open(raw, "w") as g:
+        f.write("\\data\\\nngram 1=%d\nngram 2=%d\n\n\\1-grams:\n" % (len(words) + 3, nb))
+        for w in ["<unk>", "<s>", "</s>"] + words:
+            f.write("-1.5\t%s\t-0.5\n" % w)
+        f.write("\n\\2-grams:\n")
+        for _ in range(nb):
+            a, b = words[rng.below(300)], words[rng.below(3000)]
+            f.write("-0.5\t%s %s\n" % (a, b))
+            g.write("%s %s\t7\n" % (a, b))
+        f.write("\n\\end\\\n")
+    vocab, pvocab = os.path.join(d, "v.txt"), os.path.join(d, "pv.txt")
+    with open(vocab, "w") as f, open(pvocab, "w") as pf:
+        for _ in range(3):
+            ws = [words[rng.below(300)] for _ in range(100)]
+            f.write(" ".join(ws) + "\n")
+            pf.write("\t".join(" ".join(ws[i:i + 2]) for i in range(0, len(ws), 2)) + "\n")
+    modes = [(["union", "context"], "arpa"), (["multiple", "context"], "arpa"), (["multiple", "phrase", "context"], "arpa"), (["union", "phrase", "context"], "raw"),
+             (["single"], "arpa"), (["multiple"], "raw"), (["union", "phrase"], "arpa"), (["single", "context"], "arpa")]
+    rng.shuffle(modes)
+    fails, runs = [], 0
+    for mode, fmt in modes[:ctx.pick(5, 8)]:
+        k, b = rng.choice([(2, 100), (4, 50), (4, 200), (8, 25), (3, 1000)])
+        model = arpa if fmt == "arpa" else raw
+        voc = pvocab if "phrase" in mode else vocab
+        cmd = "exec %s %s %s threads:%d batch_size:%d model:%s %s < %s" % (exe, " ".join(mode), fmt, k, b, model, os.path.join(d, "o."), voc)
+        rc, o, e = vlib.sh(["timeout", "120", "sh", "-c", cmd], timeout=130, env={"TSAN_OPTIONS": "halt_on_error=0 report_signal_unsafe=0"})
+        runs += 1
+        if "WARNING: ThreadSanitizer: data race" in e:
+            rep = e[e.index("WARNING: ThreadSanitizer: data race"):][:3000]
+            keep = os.path.join(ctx.replay_dir, "tsanfiles-%d-%d" % (ctx.seed, len(fails)))
+            os.makedirs(keep, exist_ok=True)
+            shutil.copy(model, keep)
+            shutil.copy(voc, keep)
+            fails.append(("filter:tsan:data-race", "ThreadSanitizer reports a data race in `filter %s %s threads:%d batch_size:%d` (%d reports): two threads touch the same "
+                          "filter / batch memory without ordering, so the output depends on the interleaving" % (" ".join(mode), fmt, k, b, e.count("WARNING: ThreadSanitizer")),
+                          {"tsan_cmd": cmd.replace(d, keep).replace(exe, "<tsan build>/bin/filter"), "files": keep, "report": rep,
+                           "how": "build variant 'tsan' (vlib.tool('filter', variant='tsan')), run the command, read stderr"}))
+            break
+    return fails, runs, None
+
+
+# ---------------------------------------------------------------------------------------------
 def corpus_cases():
     p = os.path.join(vlib.ROOT, "corpus", "C12", "cases.txt")
     return [l.rstrip("\n") for l in open(p) if l.strip() and not l.startswith("#")] if os.path.exists(p) else []
@@ -327,6 +502,18 @@ def run(ctx):
     except vlib.ModelBroken as e:
         model_broken = str(e)
     tfails, truns, tnon, dist = tool_checks(ctx, stock, jitter, ctx.pick(4, 40))
+    bfails, bruns, bbytes = big_tool_checks(ctx, stock, jitter)
+    tfails += bfails
+    truns += bruns
+    tnon += bruns
+    sfails, sruns, snote = tsan_checks(ctx, None)
+    tfails += sfails
+    truns += sruns
+    ctx.coverage["tsan_runs"] = sruns
+    if snote:
+        ctx.coverage["tsan_note"] = snote
+    ctx.coverage["big_input_runs"] = bruns
+    ctx.coverage["big_input_bytes"] = bbytes
     nontriv = {c for c in cases if ctl_nontrivial(c)}
     ctx.count("evaluations", len(cases) + truns)
     ctx.coverage["distinct_nontrivial"] = len(nontriv) + tnon
@@ -341,17 +528,20 @@ def run(ctx):
     ctx.coverage["input_distribution"] = ("Controller: threads 2..8, batch_size 1..5, 1..4 sections (or one raw section) of size in {0, b-1, b, b+1, 2b, Qb, Qb+1, (Q+1)b, random}, "
                                           "lines of equal length in 2/3 of the cases, calls all / single / mixed / sparse over 1..3 outputs.  Tool: ARPA order 1..3 or raw counts, "
                                           "3..16 words, 1..3 sentences, section sizes aimed at multiples of 1..12; threads 2..8 x batch_size in {1,2,3, section size, +-1, 5000, 25000}; "
-                                          "2/3 of the threaded runs with jitter at the PCQueue scheduling points")
+                                          "2/3 of the threaded runs with jitter at the PCQueue scheduling points; plus one ~2.5 MB model (> 2 FilePiece windows) in 8-11 mode/format combinations x threads 2..8 x batch 7..25000 x 2-4 repetitions (file and pipe input), and 5-8 runs of a ThreadSanitizer build")
     for c, o in list(zip(cases, iout))[:3]:
         ctx.sample({"case": c[:300], "impl": o[:300]})
     ctx.assumptions += ["PCQueue delivers every batch exactly once (property C17); boost primitives, sequential consistency",
                         "a FilterWorker / the OutputWorker owns a batch exclusively between Consume and Produce (ownership transfer through queues); data races on other memory are not modelled",
                         "the bag-of-in-flight-batches model over-approximates every interleaving of FilterWorkers and queues; the refinement from the queue-level system to it is argued, not proved",
                         "filters call either AddNGram(line) once or SingleAddNGram(o, line) for distinct o, never both, for one line (true of vocab::Multiple, phrase::Multiple, BinaryFilter by inspection)",
-                        "schedules of the real threads are perturbed by seeded jitter, not enumerated"]
+                        "schedules of the real threads are perturbed by seeded jitter, not enumerated",
+                        "what a FilterWorker decides for a line depends only on the batch's own copy of the line and on that worker's own filter object (memory "
+                        "ownership is assumed by the model; exercised by the reader window that is overwritten, the scratch-state filter behind lm::ContextFilter, "
+                        "inputs larger than the FilePiece window, and the ThreadSanitizer build)"]
     for sig, what, rep in spec_fail[:4]:
         ctx.report(sig, what, rep)
-    for sig, what, rep in tfails[:4]:
+    for sig, what, rep in tfails[:7]:
         ctx.report(sig, what, rep)
     if not spec_fail and not tfails:
         if mismatches:
@@ -414,5 +604,14 @@ def replay(ctx, obj):
                 return 1
         print("10 repetitions: identical to threads:1")
         return 0
+    if "tsan_cmd" in r:
+        exe = vlib.tool("filter", variant="tsan")
+        cmd = r["tsan_cmd"].replace("<tsan build>/bin/filter", exe).replace(os.path.join(r["files"], "o."), os.path.join(ctx.scratch, "o."))
+        rc, o, e = vlib.sh(["timeout", "120", "sh", "-c", cmd], timeout=130, env={"TSAN_OPTIONS": "halt_on_error=0 report_signal_unsafe=0"})
+        n = e.count("WARNING: ThreadSanitizer: data race")
+        print("%d data race reports" % n)
+        if n:
+            print(e[e.index("WARNING: ThreadSanitizer: data race"):][:1500])
+        return 1 if n else 0
     print("no concrete input in this replay file:", obj.get("what"))
     return 1
